@@ -110,7 +110,67 @@ def _run(pid, tier, chk, M, S, bindir, col):
     return finish(chk, col, pid)
 
 
+WALL_CLOCK_RULES = ("hang_in_", "handle_operation_never_returned", "threads_left_behind")
+
+
+def _scaled_script(script, factor):
+    import re as _re
+    out, seen = [], False
+    for l in script:
+        m = _re.search(r"watchdog=(\d+)", l)
+        if m:
+            seen = True
+            l = l.replace(m.group(0), "watchdog=%d" % int(int(m.group(1)) * factor))
+        out.append(l)
+    if not seen:
+        out.insert(0, "set watchdog=%d" % int(4000 * factor))
+    out.insert(0, "set alarm=%d" % int(8 * factor))
+    return out
+
+
+def reconfirm_wall_clock(chk, col):
+    """Every verdict that rests on a wall-clock limit (watchdog time-out, start-up alarm, killed probe,
+    quiescence wait) is re-confirmed before it counts: the run is repeated ALONE, twice, with every
+    limit at least 5 times the original (more when the machine is overloaded).  Only a non-return
+    seen in both repetitions stays a violation; otherwise it becomes an evidence note."""
+    import os
+    hangy = [f for f in col.findings if f.rule.startswith(WALL_CLOCK_RULES)]
+    if not hangy:
+        return
+    runs = []
+    for f in hangy:
+        if f.run not in runs:
+            runs.append(f.run)
+    notes = chk.extra.setdefault("wall_clock_trips_not_reproduced", [])
+    confirmed = chk.extra.setdefault("wall_clock_trips_reproduced", [])
+    for run in runs[:2]:
+        # (capped: a tree that really hangs must not cost minutes per re-run on an overloaded machine)
+        factor = min(10.0, 5.0 * max(1.0, os.getloadavg()[0] / float(os.cpu_count() or 1)))
+        rules = sorted({f.rule for f in hangy if f.run is run})
+        seen = []
+        for i in range(2):
+            c2 = S.Collector(chk)
+            r2 = T.run_probe(chk, run.bindir, "%s-reconfirm%d" % (run.name, i), _scaled_script(run.script, factor),
+                             strace=run.used_strace, inject=run.inject, timeout=run.timeout * factor, cpus=run.cpus,
+                             trace=run.trace, launcher=run.launcher, rlimits=run.rlimits, force=True)
+            r2.release = run.release
+            c2.add(r2, run.mode)
+            c2.flush("reconfirm")
+            seen.append({f.rule for f in c2.findings if f.rule.startswith(WALL_CLOCK_RULES)})
+        if all(s2 & set(rules) for s2 in seen):
+            confirmed.append({"run": run.name, "rules": rules})
+        else:
+            notes.append({"run": run.name, "rules": rules, "count": sum(1 for f in hangy if f.run is run), "limit_factor": round(factor, 1)})
+            col.findings = [f for f in col.findings if not (f.run is run and f.rule.startswith(WALL_CLOCK_RULES))]
+    # runs beyond the first two with wall-clock findings (a tree that hangs everywhere) keep theirs
+    # only if one run was confirmed
+    rest = runs[2:]
+    if rest and not confirmed:
+        col.findings = [f for f in col.findings if not (f.run in rest and f.rule.startswith(WALL_CLOCK_RULES))]
+
+
 def finish(chk, col, pid):
+    reconfirm_wall_clock(chk, col)
     mine = [f for f in col.findings if pid in f.props()]
     other = [f for f in col.findings if pid not in f.props()]
     for f in mine:
